@@ -338,3 +338,20 @@ def tid(t):
 
 
 Nth = z3.Function("Nth", SeqPV, IntSort, PyVal)     # element of a list at an in-range index (trigger-friendly form of seq.nth)
+
+
+def forall(vars_, body, patterns=()):
+    """ForAll with explicit triggers when they are valid patterns, inferred triggers otherwise."""
+    pats = []
+    for p in patterns:
+        if p is None:
+            continue
+        # each alternative trigger must be a valid pattern on its own (contain the bound variables, no ite/connectives)
+        try:
+            z3.ForAll(vars_, body, patterns=[p])
+            pats.append(p)
+        except z3.Z3Exception:
+            continue
+    if pats:
+        return z3.ForAll(vars_, body, patterns=pats)
+    return z3.ForAll(vars_, body)
